@@ -103,6 +103,29 @@ func VH_C20_Marshal(shape int) {
 			NewMysqlTableName(string(vhASCII(1)), string(vhASCII(1))))
 		tr.Events = []*StreamEvent{empty, mkSQL()}
 	}
+	if shape == 6 {
+		// the serialisation of one transaction stays what it was when another transaction is serialised
+		// afterwards (the public MarshalJSON methods called directly, as an application may do)
+		tr.Events = []*StreamEvent{mkSQL()}
+		other := &Transaction{NowPosition: vhPos(), NextPosition: vhPos(), Timestamp: int64(vhU32()), Events: []*StreamEvent{mkSQL()}}
+		other.NowPosition.Offset = tr.NowPosition.Offset + 1 // the two differ whatever the inputs are
+		other.NextPosition.Offset = tr.NextPosition.Offset + 2
+		b1, err1 := tr.MarshalJSON()
+		vhAssert(err1 == nil, "serialising a transaction succeeds")
+		b2, err2 := other.MarshalJSON()
+		vhAssert(err2 == nil, "serialising a transaction succeeds")
+		r1, ok1 := vhJSONParse(b1)
+		r2, ok2 := vhJSONParse(b2)
+		vhAssert(ok1 && ok2, "well-formed JSON")
+		n1, _ := vhJField(r1, "nowPosition")
+		n2, _ := vhJField(r2, "nowPosition")
+		vhCheckPos(n1, tr.NowPosition, "first transaction's JSON still describes the first transaction")
+		vhCheckPos(n2, other.NowPosition, "second transaction's JSON describes the second transaction")
+		x1, _ := vhJField(r1, "nextPosition")
+		vhCheckPos(x1, tr.NextPosition, "first transaction's JSON still describes the first transaction")
+		vhCover("two-serialisations")
+		return
+	}
 	out, err := json.Marshal(tr)
 	vhAssert(err == nil, "serialising a transaction succeeds")
 	root, ok := vhJSONParse(out)
